@@ -462,6 +462,15 @@ func evalArray(node *jparse.ArrayNode, data reflect.Value, env *environment) (re
 }
 
 func evalObject(node *jparse.ObjectNode, data reflect.Value, env *environment) (reflect.Value, error) {
+	return evalObjectItems(node, data, env, data == undefined)
+}
+
+// evalObjectItems builds the object from the items in data.
+// noContext is set when there is no context item at all (no input,
+// or a grouped expression that selected nothing): the value
+// expressions then see no value as their context, not a list
+// holding nothing or an empty array.
+func evalObjectItems(node *jparse.ObjectNode, data reflect.Value, env *environment, noContext bool) (reflect.Value, error) {
 	data = makeArray(data)
 
 	keys, err := groupItemsByKey(node, data, env)
@@ -516,6 +525,9 @@ func evalObject(node *jparse.ObjectNode, data reflect.Value, env *environment) (
 		context := items
 		if items.Len() == 1 {
 			context = items.Index(0)
+		}
+		if noContext {
+			context = undefined
 		}
 
 		value, err := eval(node.Pairs[idx.pair][1], context, env)
@@ -695,6 +707,7 @@ func evalGroup(node *jparse.GroupNode, data reflect.Value, env *environment) (re
 		// is nothing (which $count($) would count, and which
 		// would make every computed key an illegal non-string key).
 		items = reflect.MakeSlice(typeInterfaceSlice, 0, 0)
+		return evalObjectItems(node.ObjectNode, items, env, true)
 	}
 
 	return evalObject(node.ObjectNode, items, env)
